@@ -29,17 +29,37 @@ func (f *Frag) Type(label string, classes ...[]string) string {
 	if strings.Contains(t, "%S") {
 		f.Need(declS)
 	}
+	if u, ok := typeAliases[t]; ok {
+		f.Need(t + " = type " + u)
+	}
 	return t
 }
 
-func isVec(t string) bool      { return strings.HasPrefix(t, "<") && !strings.HasPrefix(t, "<{") }
-func isScalable(t string) bool { return strings.HasPrefix(t, "<vscale") }
+// typeAliases are named NON-struct types of the wide universe (`%VA4i32 = type <4 x i32>`): LLVM
+// reads them as the type itself, the library keeps the name on the type object, and a result type
+// computed from an operand of such a type must not inherit the name.
+var typeAliases = map[string]string{"%VA4i32": "<4 x i32>", "%VA2f": "<2 x float>", "%VAs2i64": "<vscale x 2 x i64>"}
+
+// resolve expands a type alias.
+func resolve(t string) string {
+	if u, ok := typeAliases[t]; ok {
+		return u
+	}
+	return t
+}
+
+func isVec(t string) bool {
+	t = resolve(t)
+	return strings.HasPrefix(t, "<") && !strings.HasPrefix(t, "<{")
+}
+func isScalable(t string) bool { return strings.HasPrefix(resolve(t), "<vscale") }
 
 // vecOf returns the vector type with the shape of like and element elem.
 func vecOf(like, elem string) string {
 	if !isVec(like) {
 		return elem
 	}
+	like = resolve(like)
 	i := strings.LastIndex(like, " x ")
 	return like[:i] + " x " + elem + ">"
 }
@@ -48,6 +68,7 @@ func elemOf(t string) string {
 	if !isVec(t) {
 		return t
 	}
+	t = resolve(t)
 	i := strings.LastIndex(t, " x ")
 	return t[i+3 : len(t)-1]
 }
@@ -565,8 +586,8 @@ func InstEntries() []Entry {
 // floating-point kinds in vectors, more address spaces, more vector lengths and scalable shapes.
 func SetWide() {
 	TInt = append(TInt, "i7", "i16", "i65", "i1024")
-	TIntVec = append(TIntVec, "<1 x i64>", "<16 x i1>", "<vscale x 1 x i8>", "<vscale x 16 x i64>", "<3 x i128>")
-	TFPVec = append(TFPVec, "<4 x half>", "<2 x fp128>", "<vscale x 4 x float>", "<1 x x86_fp80>")
+	TIntVec = append(TIntVec, "<1 x i64>", "<16 x i1>", "<vscale x 1 x i8>", "<vscale x 16 x i64>", "<3 x i128>", "%VA4i32", "%VAs2i64")
+	TFPVec = append(TFPVec, "<4 x half>", "<2 x fp128>", "<vscale x 4 x float>", "<1 x x86_fp80>", "%VA2f")
 	TPtr = append(TPtr, "i8 addrspace(5)*", "{ i32, i8 }*", "[4 x i32]*", "void ()*", "i32 (i8*, ...)*", "<2 x i32>*", "%S addrspace(2)*")
 	TPtrVec = append(TPtrVec, "<4 x i8 addrspace(1)*>", "<1 x %S*>", "<vscale x 4 x i32 addrspace(3)*>")
 	TAgg = append(TAgg, "[0 x i8]", "{}", "{ %S, [2 x %S] }", "[3 x <2 x i32>]", "{ i8*, i32 (i32)* }")
